@@ -22,6 +22,9 @@ struct R {
     start: u64,
     len: u64,
     marker: bool,
+    /// markers: the offset (position) of the marker; `start`/`len` are then only what the
+    /// HashRange is constructed with (the SDK's own BMFF code uses start == offset, len 1)
+    offset: u64,
 }
 
 fn digest(alg: &str, bytes: &[u8]) -> Vec<u8> {
@@ -51,7 +54,7 @@ fn model(data: &[u8], ranges: &[R], exclusion: bool) -> Result<Vec<u8>, ()> {
         let mut markers: Vec<u64> = Vec::new();
         for r in ranges {
             if r.marker {
-                markers.push(r.start);
+                markers.push(r.offset);
                 continue;
             }
             for i in r.start..r.start + r.len {
@@ -84,7 +87,7 @@ fn to_hr(ranges: &[R]) -> Vec<HashRange> {
         .map(|r| {
             let mut h = HashRange::new(r.start, r.len);
             if r.marker {
-                h.set_bmff_offset(r.start);
+                h.set_bmff_offset(r.offset);
             }
             h
         })
@@ -116,7 +119,7 @@ fn gen_ranges(r: &mut Rng, n: u64, exclusion: bool) -> Vec<R> {
             4 => u64::MAX - r.below(3),
             _ => r.below(n.saturating_sub(start.min(n)) + 2),
         };
-        v.push(R { start, len, marker: false });
+        v.push(R { start, len, marker: false, offset: 0 });
     }
     v
 }
@@ -129,9 +132,12 @@ fn add_markers(r: &mut Rng, v: &mut Vec<R>, n: u64) {
     for _ in 0..r.below(3) {
         let pos = r.below(n);
         let inside_excl = v.iter().any(|x| !x.marker && pos >= x.start && pos < x.start.saturating_add(x.len));
-        let dup = v.iter().any(|x| x.marker && x.start == pos);
+        let dup = v.iter().any(|x| x.marker && x.offset == pos);
         if !inside_excl && !dup {
-            v.push(R { start: pos, len: 1, marker: true });
+            // mostly the SDK's own shape (start == offset), sometimes a marker range whose
+            // start differs from its offset (legal through the public HashRange API)
+            let start = if r.chance(1, 3) { r.below(n) } else { pos };
+            v.push(R { start, len: 1, marker: true, offset: pos });
         }
     }
 }
@@ -176,7 +182,7 @@ impl Property for C13 {
 
         let mut judge = |out: &mut RunOut, sub: u64, data: &[u8], ranges: &[R], exclusion: bool, alg: &str, knobs: &[usize], rng: &mut Rng, with_faults: bool, with_turnstile: bool| {
             let want = model(data, ranges, exclusion).map(|b| digest(alg, &b));
-            let desc = || json!({"len": data.len(), "ranges": ranges.iter().map(|r| format!("{}{}+{}", if r.marker {"M"} else {""}, r.start, r.len)).collect::<Vec<_>>(), "exclusion": exclusion, "alg": alg});
+            let desc = || json!({"len": data.len(), "ranges": ranges.iter().map(|r| if r.marker { format!("M@{}({}+{})", r.offset, r.start, r.len) } else { format!("{}+{}", r.start, r.len) }).collect::<Vec<_>>(), "exclusion": exclusion, "alg": alg});
             let mut first: Option<Result<Vec<u8>, String>> = None;
             let mut control_ops = 0;
             for (ki, knob) in knobs.iter().enumerate() {
@@ -207,8 +213,8 @@ impl Property for C13 {
                     (Ok(w), Ok(g)) if w != g => {
                         let n = data.len() as u64;
                         let excl_at = |p: u64| ranges.iter().any(|x| !x.marker && p >= x.start && p < x.start + x.len);
-                        let is_marker = |p: u64| ranges.iter().any(|x| x.marker && x.start == p);
-                        let marker_last = ranges.iter().any(|r| r.marker && (r.start + 1 >= n || excl_at(r.start + 1) || is_marker(r.start + 1)));
+                        let is_marker = |p: u64| ranges.iter().any(|x| x.marker && x.offset == p);
+                        let marker_last = ranges.iter().any(|r| r.marker && (r.offset + 1 >= n || excl_at(r.offset + 1) || is_marker(r.offset + 1)));
                         let cls = if marker_last {
                             "marker-piece-of-one-byte"
                         } else if ranges.iter().any(|r| r.marker) {
@@ -294,7 +300,7 @@ impl Property for C13 {
                 let mut singles: Vec<R> = Vec::new();
                 for s in 0..=6u64 {
                     for l in 0..=6u64 {
-                        singles.push(R { start: s, len: l, marker: false });
+                        singles.push(R { start: s, len: l, marker: false, offset: 0 });
                     }
                 }
                 let mut lists: Vec<Vec<R>> = vec![vec![]];
@@ -362,7 +368,7 @@ impl Property for C13 {
             judge(&mut out, s, &data, &ranges, exclusion, alg, &[1 << 20, k1, k2, k3], &mut r, c % 3 == 0, c % 10 == 0);
             if c == 0 {
                 out.sample = Some(json!({"len": n, "exclusion": exclusion, "alg": alg,
-                    "ranges": ranges.iter().map(|r| format!("{}{}+{}", if r.marker {"M"} else {""}, r.start, r.len)).collect::<Vec<_>>(),
+                    "ranges": ranges.iter().map(|r| if r.marker { format!("M@{}({}+{})", r.offset, r.start, r.len) } else { format!("{}+{}", r.start, r.len) }).collect::<Vec<_>>(),
                     "knobs": [1 << 20, k1, k2, k3]}));
             }
         }
